@@ -5,7 +5,8 @@ LEVEL_TEXT = ('exploration: the invariant of the statement (one leading @charset
               'reachable rule / declaration block / property, detached objects name none, serialise + reparse loses no rule to an ordering error) is evaluated as a run-time contract on the '
               'real objects after every operation of every operation sequence up to length 3 (quick) / 4 (thorough) over the stated pools, accepted and rejected edits alike')
 LEVEL_NOTE = ('bounded, not a proof: sequences are merged when they reach the same observable state (serialisation, kind tree, namespace mapping); the longest sequences use the smaller '
-              'pools (list / core), the full pool (text forms, every index, nested lists, rule text) goes to length 2 (3 from the empty sheet in the thorough tier); rule objects have one '
+              'pools (list / core), the full pool (text forms, every index, nested lists, rule text) goes to length 2 (3 from the empty sheet in the thorough tier); the list-valued argument forms of insertRule / cssRules.extend / cssRules.append '
+              '(CSSRuleList, plain list, live list of another sheet; lists of <= 3 rules) are run as single operations from ten seed states and to length 2 for the nested lists; rule objects have one '
               'fixed text per kind; random walks (thorough only) are samples. Five recorded findings are excluded by sharp classes, two more were fixed in /repo while the check was built (known/C09.json)')
 TECHNIQUE = ('bounded run-time contracts over exhaustively enumerated edit histories on the real CSSStyleSheet/CSSMediaRule/CSSPageRule (breadth-first over distinct observable states, '
              'replay on fresh objects), seeded random walks of length 200 in the thorough tier; @import fetches answered by a fetcher returning None')
